@@ -86,11 +86,14 @@ func init() {
 		scripts := []string{"w3", "w3,c", "c", "w3,w2", "w3,w2,c", "s", "w3,s", "s,c", "w3,s,c", "w9,c", "w3,c|w2", "w3|c", "c|c"}
 		for _, sc := range scripts {
 			for _, bufSize := range []int{8, 2} {
-				for _, extra := range []string{"-", "out", "trigger", "pollclose"} {
+				for _, extra := range []string{"-", "out", "trigger", "pollclose", "rderr"} {
 					if bufSize == 2 && extra != "-" {
 						continue
 					}
 					if strings.Contains(sc, "|") && extra != "-" {
+						continue
+					}
+					if extra == "rderr" && !(sc == "w3" || sc == "w3,w2" || sc == "w3,c" || sc == "w9,c") {
 						continue
 					}
 					if extra == "out" && (strings.Contains(sc, "s") || strings.Contains(sc, "c")) {
@@ -128,6 +131,7 @@ func pollLiveScenario(script string, bufSize int, extra string) *vsched.Scenario
 		_, _, polls := netpoll.VerifManagerState()
 		poll = polls[0]
 		epfd, evfd = netpoll.VerifPollFds(poll)
+		vsyscall.L().Dev.ReadErr = extra == "rderr"
 		descs := strings.Split(script, "|")
 		sentTo = make([][]byte, len(descs))
 		peerClosed = make([]bool, len(descs))
@@ -224,8 +228,19 @@ func pollLiveScenario(script string, bufSize int, extra string) *vsched.Scenario
 				pollerExited = true
 			}
 		}
+		reset := map[int]bool{} // descriptors whose read failed with the injected ECONNRESET
+		for _, fd := range led.ReadErrFds {
+			reset[fd] = true
+		}
 		for i, s := range stubs {
 			tag := fmt.Sprintf("op%d", i)
+			if reset[s.fd] {
+				// an error is a hang-up: reported exactly once, after deregistration, nothing afterwards;
+				// what was delivered before it is a prefix (checked below), the rest is lost with the connection
+				if s.hups != 1 {
+					add(fmt.Sprintf("error-hups=%d", s.hups), fmt.Sprintf("%s: a read failed with ECONNRESET but OnHup ran %d times", tag, s.hups))
+				}
+			}
 			if len(s.in) > len(sentTo[i]) || string(s.in) != string(sentTo[i][:len(s.in)]) {
 				add("input-order", fmt.Sprintf("%s: the %d bytes delivered to Inputs/InputAck are not a prefix of the %d bytes the peer wrote", tag, len(s.in), len(sentTo[i])))
 			}
@@ -248,7 +263,7 @@ func pollLiveScenario(script string, bufSize int, extra string) *vsched.Scenario
 				if del < 0 || del > l.step(hi) {
 					add("hup-before-detach", tag+": OnHup ran although the descriptor had not been deregistered from epoll")
 				}
-				if len(s.in) != len(sentTo[i]) {
+				if len(s.in) != len(sentTo[i]) && !reset[s.fd] {
 					add("hup-before-data", fmt.Sprintf("%s: hang-up reported after only %d of the %d bytes the peer had written were delivered", tag, len(s.in), len(sentTo[i])))
 				}
 			}
@@ -256,10 +271,10 @@ func pollLiveScenario(script string, bufSize int, extra string) *vsched.Scenario
 				if peerClosed[i] && s.hups == 0 {
 					add("hup-missing", tag+": the peer closed/shut down but no hang-up was ever reported")
 				}
-				if !peerClosed[i] && s.hups > 0 && !(extra == "out" && i == 0) {
+				if !peerClosed[i] && s.hups > 0 && !(extra == "out" && i == 0) && !reset[s.fd] {
 					add("hup-spurious", tag+": hang-up reported although the peer is still open")
 				}
-				if len(s.in) != len(sentTo[i]) {
+				if len(s.in) != len(sentTo[i]) && !reset[s.fd] {
 					add("input-missing", fmt.Sprintf("%s: quiescent with only %d of %d bytes delivered", tag, len(s.in), len(sentTo[i])))
 				}
 			}
